@@ -505,7 +505,8 @@ def _coo_matrix(eng, args, kwargs):
         k = z3.Int(fresh_name("ck"))
         r, c = to_z3(shape[0], "int"), to_z3(shape[1], "int")
         inside = z3.ForAll([k], z3.Implies(z3.And(k >= 0, k < row.nz()), z3.And(row.get(k).z >= 0, row.get(k).z < r, col.get(k).z >= 0, col.get(k).z < c)))
-        eng.prove(eng.site("coo-triplets-inside-the-shape"), inside, "safety", "scipy raises ValueError for an index outside the matrix")
+        if not eng.branch(eng.sbool(inside)):
+            raise ProgExc(ValueError, "row/column index exceeds matrix dimensions (or is negative)")
     return CooRecord(data, row, col, shape, kwargs.get("dtype"))
 
 
